@@ -310,6 +310,34 @@ def rule_t2(ctx, facts):
                          "list passed to TreeBin::new is private" if not bad else "TreeBin::new relinks the nodes of a list that derives from %s" % "; ".join(bad)[:300])
 
 
+def rule_t4(ctx, facts):
+    """iterators start at the current table: the table handed to the traverser is loaded from HashMap.table.  Starting at next_table
+    during a resize would show only the bins that have already been moved; nothing leads back from there to the old table."""
+    TABLE, NEXT = ("map::HashMap", "table"), ("map::HashMap", "next_table")
+    n = 0
+    for b in facts.bodies:
+        fl = flow(b)
+        for c in b.calls:
+            if b.is_cleanup(c.b) or not callee_str(c).endswith("NodeIter::new") or not c.args:
+                continue
+            l = op_root(c.args[0])
+            if l is None:
+                continue
+            roots = fl.roots_at(l, c.point)
+            calls = [b.call_at(r[1]) for r in roots if r[0] == "call"]
+            if not calls:
+                continue          # the table comes in as a parameter (tests, wrappers): judged where it is loaded
+            n += 1
+            bad = [x for x in calls if not (is_reclaim_atomic(x) == "load" and TABLE in receiver_field(b, x, 0))]
+            ctx.inst("T4", b, "traversal starts at the current table", c.span, not bad,
+                     "the traverser is created on a fresh load of HashMap.table" if not bad else
+                     "the traverser can be created on %s (at %s) instead of the current table: an iterator created while a resize is in flight "
+                     "misses every entry whose bin has not been moved yet" % (
+                         "HashMap.next_table" if NEXT in receiver_field(b, bad[0], 0) else strip_generics(callee_str(bad[0])), bad[0].span))
+    if n < 3:
+        ctx.fail_closed("T4: expected the three traverser constructions (iter, keys, values), found %d" % n)
+
+
 def rule_t3(ctx, facts):
     """traverser index provenance: the sibling-bin stride is the length saved in the frame that was pushed for the table in which
     the forwarding marker was found; frames restore exactly what was saved; base stepping uses base_size / base_index"""
@@ -485,5 +513,7 @@ def run(ctx, facts):
              floor=60, floor_note="load-then-deref sites across map.rs, node.rs, raw/mod.rs, traverser.rs")
     ctx.rule("T2", "transfer / treeify_bin / untreeify store node links only into private nodes; TreeBin::new only receives private lists",
              floor=10, floor_note="link stores in the three copy routines + 3 TreeBin::new sites")
+    ctx.rule("T4", "iterators are created on the current table (a load of HashMap.table), never on next_table", floor=3)
+    rule_t4(ctx, facts)
     rule_t1(ctx, facts)
     rule_t2(ctx, facts)
